@@ -291,6 +291,7 @@ Record pstate := mkPstate { ps_counter : Z; ps_gens : list lgen }.
 Inductive pop :=
 | ONew (r : result (rspec * Z))     (* a constructor call: Ok (spec, start) or the error it raised *)
 | ODraw (g : nat) (n : nat)         (* n draws from the g-th successfully constructed generator *)
+| OBurn (n : nat)                   (* n context numbers taken without leaving a generator that is drawn from *)
 | OBoundary.                        (* end of a generate_data run / start of the next one *)
 
 Fixpoint set_nth {A} (n : nat) (x : A) (l : list A) : list A :=
@@ -314,6 +315,7 @@ Definition p_step (s : pstate) (o : pop) : pstate * list (rspec * Z * Z) :=
        map (fun i => (lg_spec lg, lg_ctx lg, i)) (Zseq (lg_next lg) n))
     | None => (s, [])
     end
+  | OBurn n => (mkPstate (ps_counter s + Z.of_nat n) (ps_gens s), [])
   | OBoundary => (s, [])
   end.
 
@@ -405,11 +407,16 @@ Inductive gcase :=
 | GParsed (src : list Z) (k : list part -> gcase).
 
 (* One observed process: the trace of constructor calls and draws over all its runs.
-   ENew: constructor arguments and outcome (None = constructed);  EDraw: one draw of the g-th generator
-   with the int(log)+1 value observed during that draw and the value / error it gave;  ESkip: n draws
-   whose values are not compared (they still advance the index);  EBoundary: a run ended. *)
+   ENew: arguments of a constructor call that succeeded, with the context number the new generator shows
+   (Some c: it must not lie below the counter — every context number handed out before is smaller —
+   and the numbers in between count as burnt; None: not observable, the model's own next number is
+   used);  ENewErr: arguments and error of a constructor call that failed (burns = true: not observable
+   mode, the failed call is taken to have used up one number as in the code);  EDraw: one draw of the
+   g-th generator with the int(log)+1 value observed during that draw and the value / error it gave;
+   ESkip: n draws whose values are not compared (they still advance the index);  EBoundary: a run ended. *)
 Inductive pevent :=
-| ENew (sp : pspec) (outcome : option err)
+| ENew (sp : pspec) (ctx : option Z)
+| ENewErr (sp : pspec) (e : err) (burns : bool)
 | EDraw (g : nat) (nb : Z) (expected : result gval)
 | ESkip (g : nat) (n : nat)
 | EBoundary.
@@ -441,12 +448,22 @@ Definition gres_eqb := result_eqb gval_eqb.
 Fixpoint check_events (mask : Z -> Z -> Z) (bpc : Z -> Z) (s : pstate) (evs : list pevent) : bool :=
   match evs with
   | [] => true
-  | ENew sp outcome :: r =>
+  | ENew sp ctx :: r =>
     let res := resolve sp in
-    match res, outcome with
-    | Ok _, None => check_events mask bpc (fst (p_step s (ONew res))) r
-    | Err e, Some e' => err_eqb e e' && check_events mask bpc (fst (p_step s (ONew res))) r
-    | _, _ => false
+    match res with
+    | Ok _ =>
+      match ctx with
+      | None => check_events mask bpc (fst (p_step s (ONew res))) r
+      | Some c =>
+        (ps_counter s <=? c) &&
+        check_events mask bpc (fst (p_step (fst (p_step s (OBurn (Z.to_nat (c - ps_counter s))))) (ONew res))) r
+      end
+    | Err _ => false
+    end
+  | ENewErr sp e burns :: r =>
+    match resolve sp with
+    | Err e' => err_eqb e' e && check_events mask bpc (if burns then fst (p_step s (ONew (Err e'))) else s) r
+    | Ok _ => false
     end
   | EDraw g nb expected :: r =>
     match p_step s (ODraw g 1) with
